@@ -223,38 +223,46 @@ DRetry(a, skip, until, X, p, c, env) ==
 DLeftPow(op) == IF op[1] = "infixr" THEN 2 * op[2] + 1 ELSE 2 * op[2]
 DRightPow(op) == IF op[1] = "infixr" THEN 2 * op[2] ELSE 2 * op[2] + 1
 DW(X, v, s, e, c) == LET sp == XSpan(X, s, e) IN VW(v, sp[1], sp[2], c, e)
+(* An operator is recognised by its own parser op[3] (any grammar).  What the operator parser  *)
+(* emitted counts only if the operator is kept (its operand parses).                            *)
 (* first prefix operator (from index k) that matches and whose operand parses; else the atom *)
 DPrattPrefix(g, X, p, c, env, minp, k) ==
   LET ops == g[3] IN
   IF k > Len(ops) THEN D(g[2], X, p, c, env)
-  ELSE LET op == ops[k] IN
-       IF op[1] = "prefix" /\ XTok(X, p) = op[3]
-       THEN LET r == DPratt(g, X, p + 1, c, env, 2 * op[2]) IN
-            IF r.ok THEN [r EXCEPT !.val = DW(X, VF("pre", VS(<<op[3]>>), r.val), p, r.end, c)]
+  ELSE LET op == ops[k]
+           ro == IF op[1] = "prefix" THEN D(op[3], X, p, c, env) ELSE Fail({})
+       IN
+       IF ro.ok
+       THEN LET r == DPratt(g, X, ro.end, c, env, 2 * op[2]) IN
+            IF r.ok THEN [r EXCEPT !.val = DW(X, VF("pre", ro.val, r.val), p, r.end, c), !.em = ro.em \o @]
             ELSE DPrattPrefix(g, X, p, c, env, minp, k + 1)
        ELSE DPrattPrefix(g, X, p, c, env, minp, k + 1)
 (* first applicable postfix operator from index k: result [hit, end, val] *)
 DPrattPost(g, X, p0, q, c, env, minp, lhs, k) ==
   LET ops == g[3] IN
   IF k > Len(ops) THEN [hit |-> FALSE, end |-> q, val |-> lhs, em |-> <<>>]
-  ELSE LET op == ops[k] IN
-       IF op[1] = "postfix" /\ 2 * op[2] + 1 >= minp /\ XTok(X, q) = op[3]
-       THEN [hit |-> TRUE, end |-> q + 1, val |-> DW(X, VF("post", lhs, VS(<<op[3]>>)), p0, q + 1, c), em |-> <<>>]
+  ELSE LET op == ops[k]
+           ro == IF op[1] = "postfix" /\ 2 * op[2] + 1 >= minp THEN D(op[3], X, q, c, env) ELSE Fail({})
+       IN
+       IF ro.ok
+       THEN [hit |-> TRUE, end |-> ro.end, val |-> DW(X, VF("post", lhs, ro.val), p0, ro.end, c), em |-> ro.em]
        ELSE DPrattPost(g, X, p0, q, c, env, minp, lhs, k + 1)
 (* first infix operator from index k that applies, matches and finds a right operand *)
 DPrattInfix(g, X, p0, q, c, env, minp, lhs, k) ==
   LET ops == g[3] IN
   IF k > Len(ops) THEN [hit |-> FALSE, end |-> q, val |-> lhs, em |-> <<>>]
-  ELSE LET op == ops[k] IN
-       IF op[1] \in {"infixl", "infixr"} /\ DLeftPow(op) >= minp /\ XTok(X, q) = op[3]
-       THEN LET r == DPratt(g, X, q + 1, c, env, DRightPow(op)) IN
-            IF r.ok THEN [hit |-> TRUE, end |-> r.end, em |-> r.em,
-                          val |-> DW(X, VF("in", VP(lhs, VS(<<op[3]>>)), r.val), p0, r.end, c)]
+  ELSE LET op == ops[k]
+           ro == IF op[1] \in {"infixl", "infixr"} /\ DLeftPow(op) >= minp THEN D(op[3], X, q, c, env) ELSE Fail({})
+       IN
+       IF ro.ok
+       THEN LET r == DPratt(g, X, ro.end, c, env, DRightPow(op)) IN
+            IF r.ok THEN [hit |-> TRUE, end |-> r.end, em |-> ro.em \o r.em,
+                          val |-> DW(X, VF("in", VP(lhs, ro.val), r.val), p0, r.end, c)]
             ELSE DPrattInfix(g, X, p0, q, c, env, minp, lhs, k + 1)
        ELSE DPrattInfix(g, X, p0, q, c, env, minp, lhs, k + 1)
 DPrattLoop(g, X, p0, q, c, env, minp, acc) ==
   LET po == DPrattPost(g, X, p0, q, c, env, minp, acc.val, 1) IN
-  IF po.hit THEN DPrattLoop(g, X, p0, po.end, c, env, minp, [acc EXCEPT !.val = po.val])
+  IF po.hit THEN DPrattLoop(g, X, p0, po.end, c, env, minp, [acc EXCEPT !.val = po.val, !.em = @ \o po.em])
   ELSE LET inf == DPrattInfix(g, X, p0, q, c, env, minp, acc.val, 1) IN
        IF inf.hit THEN DPrattLoop(g, X, p0, inf.end, c, env, minp, [acc EXCEPT !.val = inf.val, !.em = @ \o inf.em])
        ELSE [acc EXCEPT !.end = q]
